@@ -468,6 +468,10 @@ func (s *Server) setReturnNodes(r *krpc.Return, queryMsg krpc.Msg, querySource A
 		return &krpcErrMissingArguments
 	}
 	target := int160.FromByteArray(queryMsg.A.InfoHash)
+	if queryMsg.Q != "get_peers" {
+		// find_node and get name the ID they are looking for in target, not info_hash.
+		target = int160.FromByteArray(queryMsg.A.Target)
+	}
 	if shouldReturnNodes(queryMsg.A.Want, querySource.IP()) {
 		r.Nodes = s.makeReturnNodes(target, func(na krpc.NodeAddr) bool { return na.IP.To4() != nil })
 	}
